@@ -834,7 +834,11 @@ async fn run(prop: &'static str, _tier: Tier) {
     CLOSE_BEHIND_END.with(|c| c.set(!ixfr && abandon_after == 0 && sim::chance("xfr.close_behind_end", 1, 4)));
     let mut xst_cfg = stream::Config::new();
     xst_cfg.set_response_timeout(Duration::from_millis(2000));
-    xst_cfg.set_streaming_response_timeout(Duration::from_millis(3000));
+    // A caller may be slow to collect the messages of a transfer (it applies
+    // them as it goes): once per transfer it may look away for six seconds.
+    // (The timeout between two messages is then a long one.)
+    let slow_caller_at = if sim::chance("xfr.slow_caller", 1, 5) { Some(1 + sim::draw("xfr.slow_caller_at", 5) as usize) } else { None };
+    xst_cfg.set_streaming_response_timeout(Duration::from_millis(if slow_caller_at.is_some() { 19_000 } else { 3000 }));
     // A connection with a transfer in progress is not idle, however short
     // the idle timeout (0: close as soon as nothing is outstanding).
     // (Between an abandoned request and the next one the connection may be
@@ -914,6 +918,10 @@ async fn run(prop: &'static str, _tier: Tier) {
                     sim::sync_clock();
                     delivered.push(msg.as_slice().to_vec());
                     ev!("transfer message #{} ({} octets)", delivered.len(), msg.as_slice().len());
+                    if slow_caller_at == Some(delivered.len()) {
+                        sim::stat("probe.caller_looks_away_mid_transfer");
+                        sim::sleep_ms(6_000).await;
+                    }
                     if apply_err.is_some() {
                         continue;
                     }
@@ -1007,12 +1015,20 @@ async fn run(prop: &'static str, _tier: Tier) {
     let label = if ixfr { "ixfr" } else { "axfr" };
     // (0) nothing unauthenticated comes out after a rejection either: a
     // message handed on then must be one the server sent, unmodified.
+    // (An *unsigned* message may legally follow inside a sequence and is
+    // handed on as it comes - nothing vouches for it until the verified end.
+    // A message that carries a TSIG record has to be verified, which takes
+    // the record out: one that comes out with the record still in it, or
+    // that no unmodified server message matches, was let through unchecked.)
     for d in &after_rejection {
-        let genuine = t.clean.iter().any(|(_, b)| same_message(b, d));
-        if !genuine {
-            sim::violation(prop, "soundness", format!("message-accepted-after-a-rejected-one/{}", label), format!("after a message of the signed transfer had been rejected, get_response() handed out {} octets that no unmodified server message matches", d.len()));
+        let v = dns::view(d);
+        let has_tsig = v.as_ref().is_some_and(|v| v.recs.iter().any(|r| r.rtype == Rtype::TSIG));
+        let unsigned_genuine = t.genuine.iter().any(|g| same_message(g, d)) || t.clean.iter().any(|(_, b)| same_message(b, d));
+        if has_tsig {
+            sim::violation(prop, "soundness", format!("message-accepted-after-a-rejected-one/{}", label), format!("after a message of the signed transfer had been rejected, get_response() handed out {} octets with their TSIG record still attached: not verified", d.len()));
             return;
         }
+        let _ = unsigned_genuine;
     }
     // (1) a transfer that ended cleanly handed on what the server sent, in
     // order. (Before the end is verified, messages that looked unsigned have
